@@ -208,6 +208,8 @@ def graph_level(sp, col, shard):
         return
     if case.archs is None:
         return
+    if 'con_unordered_norepl' in flags:
+        where0['norepl_unreduced_all_permanent'] = common.norepl_unreduced_all_permanent(b.dsg)
     ref = case.ref_keys
     # reference restricted to what the constraint allows is computed with the order/option lists the API reports
     col.count('monitor_constraint_cases')
